@@ -1,5 +1,7 @@
 import ScriggoV.Lemmas.ComposeInline
+import ScriggoV.Lemmas.ComposeScope
 import ScriggoV.Model.ComposeEngine
+import ScriggoV.Gen.ExportGuard
 /-! C16 — render, import and extends compose like their documented expansions.
 Property theorems only (helper lemmas: Lemmas/Compose*.lean). Everything that mentions
 `ShowFastPath.*`, `genMacroGuard`, `genRenderGuard` is stated over the definitions that are
@@ -280,7 +282,7 @@ theorem own_of_imports_first (X' : Nat → Except Err Env) (q : Nat) (fq : File)
     (hfold : foldE (passStep X' q fq.format) ⟨[], []⟩ fq.items = .ok r) :
     ∀ m v, lookup r.exp m = some v → lookup r.loc m = some v :=
   own_of_importsFirst X' q fq.format fq.items false ⟨[], []⟩ r hif (fun _ => rfl)
-    (fun m v h => by simp [lookup] at h) hfold
+    (fun m v h => by simp [lookup] at h) (fun m v h => by simp [lookup] at h) hfold
 
 /-- **extends = the layout with the child's imports and macros**: a successful run of a file that
 extends `l` has the layout's format and is the run of `child's imports and declarations ++ layout's
@@ -300,23 +302,106 @@ theorem extends_eq_layout_with_child_macros (E : Engine) (files : List File) (n 
       lay.format (inlineDecls child ++ lay.items) = .ok r.2 :=
   runFile_extends_substituted E files n p l child lay rest r st hc hi hl hpass hNoFwd hOwn h
 
+/-! ## names: a reference resolves in the file it is written in, other files give exported names only -/
+
+/-- **emitter fact** (regenerated from `emitPackage`): a function enters the map that `emitPackage`
+returns to `emitImport` exactly when its name is exported or it is the dummy macro of a `render`. -/
+theorem emitter_exports_guarded (e d : Bool) : ExportGuard.funcsGuard e d = (e || d) := by
+  cases e <;> cases d <;> decide
+
+/-- **emitter fact** (regenerated from `emitImport`): the importer's function table is filled from
+nothing but that map. -/
+theorem emitter_import_table_from_exports :
+    ExportGuard.importInsertSources = ["funcs"] ∧
+    ExportGuard.importFuncsFrom = "em.emitPackage(pkg, false, node.Tree.Path)" := by
+  constructor <;> decide
+
+/-- the model's `exported` is Go's `isExported` on the names of the wire (`M…` / `m…`) -/
+theorem exported_regenerated (m : Nat) : ExportGuard.isExportedAscii (nameInitial m) = exported m := by
+  unfold nameInitial exported
+  cases h : m % 2 == 0 <;> simp [ExportGuard.isExportedAscii]
+
+/-- what a file hands to its importers (and an extending file to its layout): exported names only,
+every one declared in that very file — for every file set, import DAG and fuel -/
+theorem exports_are_exported (files : List File) (n q : Nat) (ex : Env)
+    (h : exportsOf files n q = .ok ex) :
+    ∀ m v, (m, v) ∈ ex → exported m = true ∧ v.home = some q :=
+  exportsOf_exports files n q ex h
+
+/-- the package scope of an imported / extending file `q` is a scope of `q`: its own declarations
+and exported names of the files it imports -/
+theorem package_scope_is_scope (files : List File) (n q : Nat) (loc : Env)
+    (h : scopeOf files n q = .ok loc) : ScopeOK (some q) loc :=
+  scopeOf_scope files n q loc h
+
+/-- the environment of a file that is run (main file, rendered file, layout with the child in
+front) is, after any number of its items, a scope of that file -/
+theorem run_scope_is_scope (E : Engine) (files : List File) (R : Nat → Except Err (Format × Bytes))
+    (S : Nat → Except Err Env) (k n : Nat) (fmt : Format) (items : List Item) (st : St)
+    (h : foldE (stepItem E R S (exportsOf files k) n fmt) ⟨[], []⟩ items = .ok st) :
+    ScopeOK none st.env :=
+  foldE_inv (P := fun s => ScopeOK none s.env) items
+    (fun s a s' hs hstep => stepItem_scope E R S _ (exportsOf_exports files k) n fmt s a s' hs hstep)
+    ⟨[], []⟩ st .nil h
+
+/-- **Resolution never returns a declaration of another file unless it is exported**: in a scope of
+file `cur`, a name that resolves to a declaration made in a different file is an exported name. -/
+theorem resolve_other_file_only_exported {cur : Option Nat} {env : Env} (h : ScopeOK cur env)
+    (m : Nat) (v : MacroVal) (hl : lookup env m = some v) (hne : v.home ≠ cur) : exported m = true := by
+  rcases (h.lookup m v hl).1 with h1 | h1
+  · exact absurd h1 hne
+  · exact h1
+
+/-- … and the invariant travels with the evaluation: the scope in which the body of the resolved
+macro is evaluated (`scopeEnv`: the environment it closed over, or the package scope of its home
+file) is a scope of the file that macro was declared in. By induction every `lookup` that `evalAtom`
+performs, at any call depth, happens in a scope of the file the call is written in. -/
+theorem callee_scope_is_scope (files : List File) (n : Nat) {cur : Option Nat} {env : Env}
+    (h : ScopeOK cur env) (m : Nat) (v : MacroVal) (hl : lookup env m = some v) (senv : Env)
+    (hs : scopeEnv (scopeOf files n) v.cenv v.home = .ok senv) : ScopeOK v.home senv := by
+  cases hh : v.home with
+  | none =>
+    rw [hh] at hs
+    simp only [scopeEnv] at hs
+    cases hs
+    exact (h.lookup m v hl).2 hh
+  | some q =>
+    rw [hh] at hs
+    exact scopeOf_scope files n q senv hs
+
+/-- non-vacuity, and the shape the theorems are about: file 0 imports file 1; both declare the
+unexported name 1 (`m0`); file 1's exported 2 (`M1`) uses its own `m0`; file 0's macro 4 (`M2`) calls
+*its* `m0` from inside a macro body. Every reference resolves in its own file: `[i]|i|l`. -/
+def collideFiles : List File :=
+  [ ⟨.text, [.import_ 1, .macroDecl 1 none [] [.text [105]],
+             .macroDecl 4 none [] [.text [91], .call .text 1 false [], .text [93]],
+             .atom (.call .text 4 false []), .atom (.text [124]), .atom (.call .text 1 false []),
+             .atom (.text [124]), .atom (.call .text 2 false [])]⟩,
+    ⟨.text, [.macroDecl 1 none [] [.text [108]], .macroDecl 2 none [] [.call .text 1 false []]]⟩ ]
+
+example : runFile (genEngine id (liftEsc toyEsc)) collideFiles 5 true 0
+    = .ok (.text, [91, 105, 93, 124, 105, 124, 108]) := by rfl
+example : ∃ ex, exportsOf collideFiles 3 1 = .ok ex ∧ lookup ex 1 = none ∧ (lookup ex 2).isSome := by
+  exact ⟨_, rfl, rfl, rfl⟩
+example : exported 1 = false ∧ exported 2 = true := by decide
+
 /-! ## non-vacuity: a concrete file set on which the hypotheses hold and every construct is used -/
 
-/-- files: 0 child.html (extends 1, imports 4, declares macro 7 (text format, one string parameter)
-and macro 8 which calls 7 and the imported 9), 1 layout.html (calls 7 in HTML, calls 8, renders 2
-and 3), 2 part.html, 3 part.txt, 4 lib.txt (imports 5; macro 9 calls the later macro 10 — a forward
-reference — and 11 of file 5), 5 lib2.txt -/
+/-- files: 0 child.html (extends 1, imports 4, declares macro 14 = `M7` (text format, one string
+parameter) and macro 8 = `M4` which calls 14 and the imported 18 = `M9`), 1 layout.html (calls 14 in
+HTML, calls 8, renders 2 and 3), 2 part.html, 3 part.txt, 4 lib.txt (imports 5; macro 18 calls the
+later, unexported macro 13 = `m6` — a forward reference — and 22 = `M11` of file 5), 5 lib2.txt -/
 def demoFiles : List File :=
   [ ⟨.html, [.extends_ 1, .import_ 4, .atom (.text [32]),
-             .macroDecl 7 (some .text) [.text] [.text [60], .showParam .text 0],
-             .macroDecl 8 none [] [.text [98], .call .html 7 false [[38]], .call .html 9 true []]]⟩,
-    ⟨.html, [.atom (.text [91]), .atom (.call .html 7 false [[39]]), .atom (.call .html 8 true []),
+             .macroDecl 14 (some .text) [.text] [.text [60], .showParam .text 0],
+             .macroDecl 8 none [] [.text [98], .call .html 14 false [[38]], .call .html 18 true []]]⟩,
+    ⟨.html, [.atom (.text [91]), .atom (.call .html 14 false [[39]]), .atom (.call .html 8 true []),
              .atom (.render .html 2 false), .atom (.render .html 3 true), .atom (.text [93])]⟩,
     ⟨.html, [.atom (.text [38])]⟩,
     ⟨.text, [.atom (.text [62])]⟩,
-    ⟨.text, [.import_ 5, .macroDecl 9 none [] [.call .text 10 false [], .call .text 11 false []],
-             .macroDecl 10 none [] [.text [120]]]⟩,
-    ⟨.text, [.macroDecl 11 none [] [.text [121]]]⟩ ]
+    ⟨.text, [.import_ 5, .macroDecl 18 none [] [.call .text 13 false [], .call .text 22 false []],
+             .macroDecl 13 none [] [.text [120]]]⟩,
+    ⟨.text, [.macroDecl 22 none [] [.text [121]]]⟩ ]
 
 def demoEngine : Engine := genEngine id (liftEsc toyEsc)
 
@@ -326,19 +411,19 @@ example : runFile demoEngine demoFiles 5 true 0 = .ok (.html, demoOut) := by rfl
 /-- the child (file 0) satisfies the hypotheses of `extends_eq_layout_with_child_macros` -/
 example : ∃ st, passOf demoFiles 4 0 = .ok st ∧
     NoFwd (exportsOf demoFiles 3) 0 .html st.loc ⟨[], []⟩ [.extends_ 1, .import_ 4, .atom (.text [32]),
-             .macroDecl 7 (some .text) [.text] [.text [60], .showParam .text 0],
-             .macroDecl 8 none [] [.text [98], .call .html 7 false [[38]], .call .html 9 true []]] ∧
+             .macroDecl 14 (some .text) [.text] [.text [60], .showParam .text 0],
+             .macroDecl 8 none [] [.text [98], .call .html 14 false [[38]], .call .html 18 true []]] ∧
     importsFirst false [.extends_ 1, .import_ 4, .atom (.text [32]),
-             .macroDecl 7 (some .text) [.text] [.text [60], .showParam .text 0],
-             .macroDecl 8 none [] [.text [98], .call .html 7 false [[38]], .call .html 9 true []]] = true := by
+             .macroDecl 14 (some .text) [.text] [.text [60], .showParam .text 0],
+             .macroDecl 8 none [] [.text [98], .call .html 14 false [[38]], .call .html 18 true []]] = true := by
   refine ⟨_, rfl, ?_, rfl⟩
   simp [NoFwd, passStep, exportsOf, expOf, passOf, demoFiles, foldE, lookup, Atom.callee]
 example : runItems demoEngine (fun q => runFile demoEngine demoFiles 4 false q) (scopeOf demoFiles 4)
     (exportsOf demoFiles 4) 4 .html
     (inlineDecls ⟨.html, [.extends_ 1, .import_ 4, .atom (.text [32]),
-             .macroDecl 7 (some .text) [.text] [.text [60], .showParam .text 0],
-             .macroDecl 8 none [] [.text [98], .call .html 7 false [[38]], .call .html 9 true []]]⟩ ++
-      [.atom (.text [91]), .atom (.call .html 7 false [[39]]), .atom (.call .html 8 true []),
+             .macroDecl 14 (some .text) [.text] [.text [60], .showParam .text 0],
+             .macroDecl 8 none [] [.text [98], .call .html 14 false [[38]], .call .html 18 true []]]⟩ ++
+      [.atom (.text [91]), .atom (.call .html 14 false [[39]]), .atom (.call .html 8 true []),
              .atom (.render .html 2 false), .atom (.render .html 3 true), .atom (.text [93])])
     = .ok demoOut := by
   rfl
